@@ -179,10 +179,12 @@ fn far(q: &Integer, x: &Integer) -> bool {
 /// d = omega + c * x_1 where omega < 2^(l+t) * rmax is far SHORTER than c * x_1 (c is a 256-bit hash):
 /// floor(d / c) gives x_1 up to 2^169 and (x_1^2 + aa) / 2^T gives the committed value up to a few units.
 /// Uses public data only (the serialized range proof and its public bounds).
-fn boudot_estimate(rp: &Value, a: &Integer, b: &Integer) -> Option<Integer> {
+/// public-data estimate of the committed value from the proof-of-square response; `shifted` selects the
+/// decomposition point aa = 2^T a - 2^(l+t+T/2+1) sqrt(b-a) used before DESIGN F13 was repaired
+fn boudot_estimate(rp: &Value, a: &Integer, b: &Integer, shifted: bool) -> Option<Integer> {
     let t = 2 * (128 + 40 + 1) + Integer::from(b - a).significant_bits();
     let sq = Integer::from(b - a).sqrt();
-    let kk = pow2(40 + 128 + t / 2 + 1) * sq;
+    let kk = if shifted { pow2(40 + 128 + t / 2 + 1) * sq } else { Integer::from(0) };
     let aa = Integer::from(pow2(t) * a) - &kk;
     let ss = &rp["proof_of_tolerance"]["proof_of_square_a"]["proof_ss"];
     let d = field(ss, "d");
@@ -197,8 +199,8 @@ fn boudot_estimate(rp: &Value, a: &Integer, b: &Integer) -> Option<Integer> {
 
 fn boudot_leaks(h: &mut H, what: &str, rps: &[(String, Value, Integer, Integer, Integer)], id: u64) {
     for (nm, rp, a, b, secret) in rps {
-        if let Some(est) = boudot_estimate(rp, a, b) {
-            let dist = Integer::from(&est - secret).abs();
+        let ests: Vec<Integer> = [false, true].iter().filter_map(|&sh| boudot_estimate(rp, a, b, sh)).collect();
+        if let Some(dist) = ests.iter().map(|e| Integer::from(e - secret).abs()).min() {
             h.stat("C19.boudot_estimates");
             h.expect(dist >= two64(), "C19.boudot_square_response", &format!("{}: the proof-of-square response of {} divided by its challenge recovers the committed secret to within {} (public data only)", what, nm, dist), &[id]);
         }
